@@ -25,6 +25,8 @@ import (
 	"github.com/scionproto/scion/pkg/spao"
 
 	"example.com/scion-time/net/scion"
+
+	"verif.local/shim/vnet"
 )
 
 // PathSpec describes a SCION data-plane path.
@@ -332,4 +334,44 @@ func (d *FakeDaemon) HostHostKey(srvIA, cliIA addr.IA, srvHost, cliHost string) 
 	}
 	d.Calls--
 	return k.Key[:]
+}
+
+// SCIONTransport wraps the reference server's NTP replies into SCION/UDP
+// packets addressed back to the requester (swapped addresses and ports,
+// library-reversed path).
+type SCIONTransport struct{}
+
+type scionMeta struct{ pr *Parsed }
+
+func (SCIONTransport) Unwrap(d *vnet.Datagram) ([]byte, any, bool) {
+	pr, err := Parse(d.Data)
+	if err != nil || pr.UDP == nil {
+		return nil, nil, false
+	}
+	return pr.UDP.Payload, scionMeta{pr}, true
+}
+
+func (SCIONTransport) Wrap(meta any, payload []byte) []byte {
+	pr := meta.(scionMeta).pr
+	sl := pr.SCION
+	src, _ := netip.AddrFromSlice(sl.RawDstAddr)
+	dst, _ := netip.AddrFromSlice(sl.RawSrcAddr)
+	var raw []byte
+	ptype := sl.PathType
+	if sl.Path != nil {
+		rp, err := sl.Path.Reverse()
+		if err != nil {
+			panic(err)
+		}
+		raw = make([]byte, rp.Len())
+		if err := rp.SerializeTo(raw); err != nil {
+			panic(err)
+		}
+		ptype = rp.Type()
+	}
+	p := &Pkt{SrcIA: sl.DstIA, DstIA: sl.SrcIA, SrcHost: src, DstHost: dst, RawPath: raw, PathType: ptype, L4: "udp", SrcPort: pr.UDP.DstPort, DstPort: pr.UDP.SrcPort, Payload: payload}
+	if raw == nil {
+		p.RawPath = []byte{}
+	}
+	return p.Bytes()
 }
